@@ -39,6 +39,27 @@ CHECKS = {
             'Exploration, not proof.',
             'Trusts NumPy; real cuts only on inputs with orthonormal factors (see DESIGN C05); guard band on singular values via assume.',
             '3/C05'),
+    'C12': ('property-based testing (Hypothesis): differential against a state-enumeration master-equation generator / numpy.add.at histogram',
+            'Generated reaction networks (open and cyclic chains, unequal cell sizes, empty lists, unequal bond ranks, homogeneous '
+            'shortcut) and integer transition tables; the TT operator is compared entry-wise with the dense definition and its '
+            'corollaries (column sums, signs). Exploration, not proof.',
+            'Trusts the explicit enumeration oracle in vt/props/c12.py; >= 2 cells; positive thresholds only on bonds with an '
+            'effective reaction.', '3/C12'),
+    'C13': ('property-based testing (Hypothesis) over enumerated model sizes x drawn parameters: defining formulas, dense or as TT-form identities',
+            'Every bundled model is instantiated for all sizes that fit and random parameters and compared with its defining '
+            'property/formula (generator, unitary, bit-reversed DFT, Hamiltonian/energy formula, ODE right-hand side, digit-wise '
+            'fractal definition). Exploration, not proof.',
+            'Trusts NumPy and the harness-side TT arithmetic in vt/dense.py; TT-form norms resolve ~1e-6 relative.', '3/C13'),
+    'C14': ('property-based testing (Hypothesis): complex-step / Richardson differentiation of the evaluation as derivative oracle',
+            'Generated families, parameters, coordinates, dimensions and points; first derivatives are checked against complex-step '
+            'differentiation of the evaluation, second derivatives against complex-step differentiation of the (already checked) '
+            'first derivative, plus gradient/hessian consistency, zero foreign derivatives and array evaluation. Exploration.',
+            'B-spline degree >= 1; spline points away from knots; NotImplementedError for undocumented second derivatives is '
+            'accepted as the documented contract.', '3/C14'),
+    'C15': ('property-based testing (Hypothesis): differential against an explicit loop over multi-indices and snapshots',
+            'Generated data, mixed basis-function lists, add_one, single_core, second data set (Gram) and HOCUR settings; the '
+            'transformed data tensor is compared with the explicit product formula. Exploration, not proof.',
+            'HOCUR ranks >= m; ill-conditioned cases (singular-value ratios of an unfolding in (1e-13, 1e-4)) are discarded.', '3/C15'),
 }
 
 BUILT = set(CHECKS)
